@@ -596,6 +596,11 @@ namespace
 	      && (tag != DW_TAG_base_type
 		  || ! dwarf_hasattr_integrate (&type_die, DW_AT_encoding)))
 	    {
+	      // dwarf_diename returns NULL both on error and when the
+	      // DIE simply has no name.  The error code tells the two
+	      // apart, but only if it is not one that an earlier,
+	      // unrelated call left pending: clear that first.
+	      dwarf_errno ();
 	      char const *name = dwarf_diename (&type_die);
 	      if (name == nullptr)
 		{
